@@ -353,6 +353,32 @@ def source_changes(prop):
         return ["<fingerprint-error: %s>" % exc]
 
 
+def drain_search(mod, broken_cases, rng):
+    """All cases of the module's failing-input search.  The neighbour derivation of a module is written for the case
+    shapes it knew; a family case of another shape must not turn a found disagreement into a crash (exit 1 without a
+    VIOLATION line): whatever was generated before the error is kept, the broken cases are then offered one by one (so a
+    single odd shape does not hide the others) and the module's own sweep (no broken cases) is always run."""
+    out, errors = [], []
+
+    def drain(broken):
+        n = 0
+        try:
+            for case in mod.search_cases(broken, rng):
+                out.append(case)
+                n += 1
+        except Exception as e:  # noqa: BLE001
+            errors.append("search_cases failed after %d cases on %d broken case(s): %s: %s" % (
+                n, len(broken), type(e).__name__, str(e)[:120]))
+            return False
+        return True
+
+    if not drain(broken_cases) and broken_cases:
+        for case in broken_cases:
+            drain([case])
+        drain([])
+    return out, errors
+
+
 def main(argv=None):
     ap = argparse.ArgumentParser()
     ap.add_argument("prop")
@@ -480,8 +506,10 @@ def main(argv=None):
     if ms_breaks:
         broken.append("model vs spec at run time: %d cases" % len(ms_breaks))
     if (broken or amplified) and not violations and hasattr(mod, "search_cases"):
-        extra = list(mod.search_cases([r["case"] for r in a_breaks[:20]], rng))
+        extra, search_errors = drain_search(mod, [r["case"] for r in a_breaks[:20]], rng)
         searched = len(extra)
+        for err in search_errors:
+            print("search: %s" % err, file=sys.stderr)
         for case, obs in zip(extra, observe_all(modname, extra, args.jobs)):
             if "__harness_error__" in obs:
                 continue
